@@ -144,7 +144,7 @@ def lean_forbidden_hits():
     return hits
 
 
-def lean_check(prop, log):
+def lean_check(prop, log, thorough=False):
     """Build the property's theorem file, audit axioms.  Returns dict(ok, theorems, axioms, detail)."""
     path, thms = prop_theorems(prop)
     res = {"ok": False, "theorems": thms, "axioms": {}, "detail": "", "file": path}
@@ -158,7 +158,7 @@ def lean_check(prop, log):
     if os.path.exists(stamp):
         try:
             old = json.load(open(stamp))
-            if old.get("hash") == hsh and old.get("ok") and os.path.exists(
+            if old.get("hash") == hsh and old.get("ok") and (old.get("leanchecker") or not thorough) and os.path.exists(
                     os.path.join(LEAN_DIR, ".lake", "build", "lib", "lean", "JokerVerif", "Props", f"{prop}.olean")):
                 old["cached"] = True
                 return old
@@ -193,7 +193,17 @@ def lean_check(prop, log):
         res["detail"] = f"axiom audit: disallowed {bad}, not reported {missing}"
         res["axioms"] = axioms
         return res
-    res.update(ok=True, axioms=axioms, hash=hsh, detail=f"{len(thms)} theorems, axioms within {sorted(ALLOWED_AXIOMS)}")
+    detail = f"{len(thms)} theorems, axioms within {sorted(ALLOWED_AXIOMS)}"
+    if thorough:
+        t0 = time.time()
+        rc, out = _run(["lake", "env", "leanchecker", f"JokerVerif.Props.{prop}"], cwd=LEAN_DIR)
+        log(f"[lean] leanchecker JokerVerif.Props.{prop}: rc={rc} ({time.time()-t0:.1f}s)")
+        if rc != 0:
+            res["detail"] = "leanchecker (independent re-check of the compiled module) failed:\n" + out[-2000:]
+            return res
+        res["leanchecker"] = True
+        detail += "; leanchecker re-check passed"
+    res.update(ok=True, axioms=axioms, hash=hsh, detail=detail)
     json.dump(res, open(stamp, "w"))
     return res
 
